@@ -30,6 +30,11 @@ OPS = {ast.Add: "+", ast.Sub: "-", ast.Mult: "*", ast.Div: "/", ast.FloorDiv: "/
 CMPS = {ast.Eq: "==", ast.NotEq: "!=", ast.Lt: "<", ast.LtE: "<=", ast.Gt: ">", ast.GtE: ">=", ast.Is: "is",
         ast.IsNot: "is not", ast.In: "in", ast.NotIn: "not in"}
 UNOPS = {ast.Not: "not", ast.USub: "neg", ast.UAdd: "pos", ast.Invert: "~"}
+IMPURE_EXT = {"time.time", "time.time_ns", "time.perf_counter", "random.random", "random.choice", "random.randint", "random.uniform",
+              "random.shuffle", "random.sample", "os.urandom", "uuid.uuid4", "next", "input"}
+IMPURE_METHODS = {"uniform", "choice", "permutation", "integers", "normal", "random", "binomial", "standard_normal",
+                  "multivariate_normal", "laplace", "exponential", "permuted", "rand", "randn", "randint", "random_sample",
+                  "pop", "popitem"}
 MUTATORS = {"append", "extend", "insert", "pop", "remove", "clear", "sort", "reverse", "add", "discard", "update",
             "fill", "setdefault", "popitem", "shuffle"}
 
@@ -129,11 +134,11 @@ def fmt(t, depth=0):
     if k == "call":
         return "%s(%s)" % (t[1].split(".")[-1], ", ".join("%s=%s" % (a, f(b)) for a, b in t[3]))
     if k == "ext":
-        return "%s(%s)" % (t[1], ", ".join([f(x) for x in t[2]] + ["%s=%s" % (a, f(b)) for a, b in t[3]]))
+        return "%s(%s)" % (t[1], ", ".join([f(x) for x in t[2]] + ["%s=%s" % (a, f(b)) for a, b in t[3] if a != "$draw"]))
     if k == "join":
         return "join(" + " | ".join(f(x) for x in t[1]) + ")"
     if k == "method":
-        return "%s.%s(%s)" % (f(t[1]), t[2], ", ".join([f(x) for x in t[3]] + ["%s=%s" % (a, f(b)) for a, b in t[4]]))
+        return "%s.%s(%s)" % (f(t[1]), t[2], ", ".join([f(x) for x in t[3]] + ["%s=%s" % (a, f(b)) for a, b in t[4] if a != "$draw"]))
     if k == "apply":
         return "%s(%s)" % (f(t[1]), ", ".join(f(x) for x in t[2]))
     if k in ("elem", "idx", "key", "val"):
@@ -308,15 +313,22 @@ class Sym(Interp):
         return tuple(("star", T(a[1])) if isinstance(a, tuple) and len(a) == 2 and a[0] == "*" and not isinstance(a[1], str)
                      else T(a) for a in args)
 
+    def draw_tag(self):
+        """random draws / pops are not pure: every evaluation is a distinct value"""
+        self._draws = getattr(self, "_draws", 0) + 1
+        return (("$draw", ("const", self._draws)),)
+
     def h_call_ext(self, d, n, args, kwargs, env, ctx):
-        t = ("ext", d, self.argt(args), self.kwt(kwargs))
+        impure = d in IMPURE_EXT or (d.startswith("numpy.random.") and d not in ("numpy.random.default_rng", "numpy.random.seed",
+                                                                                  "numpy.random.RandomState", "numpy.random.Generator"))
+        t = ("ext", d, self.argt(args), self.kwt(kwargs) + (self.draw_tag() if impure else ()))
         self.fact("call", ctx, n, env, target=d, args=[T(a) for a in args], kwargs={k: T(v) for k, v in kwargs.items()},
                   callkind="ext", result=t, rawargs=list(args))
         return t
 
     def h_call_method(self, recv, attr, n, args, kwargs, env, ctx):
         r = T(recv)
-        t = ("method", r, attr, self.argt(args), self.kwt(kwargs))
+        t = ("method", r, attr, self.argt(args), self.kwt(kwargs) + (self.draw_tag() if attr in IMPURE_METHODS else ()))
         self.fact("call", ctx, n, env, target="." + attr, recv=r, args=[T(a) for a in args],
                   kwargs={k: T(v) for k, v in kwargs.items()}, callkind="method", result=t, rawargs=list(args))
         if attr in MUTATORS:
@@ -324,7 +336,7 @@ class Sym(Interp):
         return t
 
     def h_call_opaque(self, fv, n, args, kwargs, env, ctx):
-        t = ("apply", T(fv), self.argt(args), self.kwt(kwargs))
+        t = ("apply", T(fv), self.argt(args), self.kwt(kwargs), self.draw_tag())
         self.fact("call", ctx, n, env, target="<opaque>", callee=T(fv), args=[T(a) for a in args],
                   kwargs={k: T(v) for k, v in kwargs.items()}, callkind="opaque", result=t, rawargs=list(args))
         return t
@@ -627,3 +639,9 @@ def run_function(S, func, args=None, selfobj=None):
         selfobj = ObjV(func.module, func.cls, {}, tag="self")
     env = {}
     return S.summary(func, selfobj, bound, env, ctx, func.node), selfobj
+
+
+def kwargs_of(t):
+    """keyword arguments of a method / ext term without the purity tag"""
+    kw = t[4] if t[0] == "method" else t[3]
+    return {k: v for k, v in kw if k != "$draw"}
